@@ -41,10 +41,13 @@ class Ctx:
         self.extra = {}
 
     # ---- facts
-    def facts(self, cfg="A"):
+    def facts(self, cfg="A", raw=False):
         if cfg not in self.configs_used:
             self.configs_used.append(cfg)
-        return factsmod.load(cfg)
+        f = factsmod.load(cfg)
+        if raw or os.environ.get("CVA_RAW") == "1":
+            return f
+        return f.desugared()
 
     def configs(self):
         """configurations to analyse in this tier"""
